@@ -98,3 +98,34 @@ def lattice(max_N, Ts=(1, 2, 3, 4, 5, 6), ms=(1, 2, 4, 8, 16, 32), bits=BITS):
                 for T in Ts:
                     out.append((b, m, T))
     return out
+
+
+def mixed_generator_batches(rng, quick, prefix):
+    """Batches of mixed aggregation factors in which ONE member's statement carries a different H or Gb_k while its commitments are the
+    same points (`open_std`): verify() takes H, Gb and the tables from particular members (the first, the largest), so such a statement
+    must be refused whatever its position and size.  Returns session specs with `_tags` = [(description, must_be_accepted)]."""
+    shapes = [[1, 2], [2, 1], [1, 2, 1], [1, 2, 4]] if quick else [[1, 2], [2, 1], [1, 2, 1], [1, 2, 4], [4, 2, 1], [2, 2], [1, 1, 2], [2, 4, 4], [1, 4, 2], [2, 1, 4]]
+    specs = []
+    for si, shape in enumerate(shapes):
+        b, T = rng.choice([1, 2, 4]), rng.choice([1, 2, 3])
+        mems = [mk_member(rng, b, mm, cap=mm, T=T, ctx={"label": f"{prefix}-{i}"}) for i, mm in enumerate(shape)]
+        base_vm = [vmember(mems[i], i) for i in range(len(shape))]
+        verifies, tags = [{"mode": "VerifyOnly", "vmembers": base_vm}], [("base", True)]
+
+        def std_stmt(i, **over):
+            st = stmt_of(mems[i], **over)
+            st["commit"] = [{"open_std": c} for c in st["commit"]]
+            return {"proof": i, "stmt": st, "ctx": mems[i]["ctx"]}
+        vm = list(base_vm)
+        vm[len(shape) - 1] = std_stmt(len(shape) - 1)
+        verifies.append({"mode": "VerifyOnly", "vmembers": vm})
+        tags.append(("control: same commitments given as points (must stay accepted)", True))
+        for i in range(len(shape)):
+            for tag, over in [("H", {"h_scale": hx(2)})] + [(f"Gb{kk}", {"gb_scale": [kk, hx(3)]}) for kk in sorted({0, T - 1})]:
+                vm = list(base_vm)
+                vm[i] = std_stmt(i, **over)
+                verifies.append({"mode": rng.choice(["VerifyOnly", "RecoverAndVerify"]), "vmembers": vm})
+                tags.append((f"mixed batch m={shape}: {tag} of member {i} altered", False))
+        specs.append({"id": f"{prefix}-mixed-{si}", "group": "fm", "members": mems, "verifies": verifies, "_tags": tags, "_shape": shape,
+                      "_conf": [b, max(shape), T], "with_gens": False})
+    return specs
